@@ -1,6 +1,6 @@
 #!/usr/bin/env python3
 """Runs every confirmed seeded change (seeded/*/patch.diff), the selftest mutants and the reverted fixes against the checks
-of their property (plus listed related checks) and writes seeded/MATRIX.json / MATRIX.md.   tools/seed_matrix.py [-j N] [--all]
+of their property (plus listed related checks) and writes seeded/MATRIX.json / MATRIX.md.   tools/seed_matrix.py [-j N] [--all] [--only <substring>]
 --all: run every seed against all 20 checks (cross-detection matrix)."""
 import json, os, subprocess, sys, glob, re
 from concurrent.futures import ThreadPoolExecutor
@@ -28,6 +28,12 @@ for d in sorted(glob.glob(os.path.join(V, "fixes", "D*.patch"))):
     name = os.path.basename(d)[:-6]
     items.append(("revert:" + name, d, True, FIXPROP[name]))
 
+only = None
+if "--only" in sys.argv:          # --only <substring>: run the matching items and merge their rows into the existing matrix
+    only = sys.argv[sys.argv.index("--only") + 1]
+    items = [it for it in items if only in it[0]]
+
+
 def run(item):
     name, patch, rev, props = item
     cmd = [os.path.join(V, "tools", "mutant.py")] + (["-R"] if rev else []) + [patch] + props
@@ -46,6 +52,11 @@ def run(item):
 
 with ThreadPoolExecutor(max_workers=jobs) as ex:
     out = dict(ex.map(run, items))
+if only is not None and os.path.exists(os.path.join(V, "seeded", "MATRIX.json")):
+    new = out
+    out = json.load(open(os.path.join(V, "seeded", "MATRIX.json")))
+    out.update(new)
+    out = dict(sorted(out.items(), key=lambda kv: (kv[0].startswith("revert:"), kv[0].startswith("selftest:"), kv[0])))
 json.dump(out, open(os.path.join(V, "seeded", "MATRIX.json"), "w"), indent=1)
 lines = ["# Seeded changes, self-test mutants and reverted fixes vs. checks", "",
          "exit 1 = the check reports a violation (caught); exit 0 = not caught by that check.", "",
